@@ -73,6 +73,7 @@ def cost_catalog():
         "K4_8": kron(D(8, 6), D(8, 7), D(8, 8), D(8, 9)),
         "K2_96": kron(D(96, 10), D(96, 11)),
         "KS_64": kronsum(D(64, 12), D(64, 13)),
+        "KS3_16": kronsum(D(16, 19), D(16, 20), D(16, 21)),
         "BD_32x64_64x32": blockdiag([D(32, 14), D(64, 15)], [64, 32]),
         "BD_K": blockdiag([kron(D(16, 16), D(16, 17)), D(64, 18)], [8, 32]),
         "Dg_4096": diag(4096),
